@@ -43,10 +43,11 @@ def union_family(ty, info):
     return corelib.has_union(ty) and info.get("impl_model_agrees")
 
 
-def run_stream(ctx, cases):
+def run_stream(ctx, cases, annot=False):
     lines, metas = [], []
     for ty, value, entry in cases:
         reg = S.Reg(mixin=(entry == "mixin"))
+        reg.annot = annot
         try:
             out, r, viter = corelib.real_pack(ty, value, reg, entry)
             back = None
@@ -64,6 +65,9 @@ def run_stream(ctx, cases):
     outs = ctx.model(lines)
     for i, (ty, value, entry, out, back, reg) in enumerate(metas):
         case = {"ty": ty, "value": value, "entry": entry}
+        if annot:
+            case["annot"] = annot
+            ctx.bump("annotated-wrapper cases")
         ctx.count(case, not isinstance(ty, str), kind=f"root:{gen.tag_of(ty)}")
         ctx.bump(f"depth:{gen.depth_of(ty)}")
         m = outs[i] if outs else None
@@ -144,12 +148,20 @@ def run(ctx):
     ctx.rule = RULE
     ctx.lean_check("Mashu.Props.C01", THEOREMS, extra_targets=["Mashu.Dispatch"])
     tz_exhaustive(ctx)
+    from . import decode
+
+    for mode, cs in decode.fixed_corpus(ctx, key="value").items():
+        run_stream(ctx, [(t, v, e) for t, v, e, _o in cs], annot=mode)
     n, depth = (2500, 3) if ctx.tier == "quick" else (40000, 4)
     done = 0
     while done < n and ctx.time_left() > 30:
         k = min(2500, n - done)
         run_stream(ctx, gen_cases(ctx, k, depth))
         done += k
+    # the same generator with every annotation wrapped in Annotated[..., metadata]
+    for mode in (True, "newtype", "typealias"):
+        if ctx.time_left() > 30:
+            run_stream(ctx, gen_cases(ctx, (500 if ctx.tier == "quick" else 6000) // (1 if mode is True else 2), depth), annot=mode)
     ctx.exhaustive = False
     ctx.assumptions += [
         "stdlib leaf printers/parsers are mutually inverse on the lossless leaves (OracleLaws.leaf_rt); sampled on the leaf pools on every run",
@@ -162,5 +174,5 @@ def replay(ctx, body):
     if "tzname" in case or "tz_string" in case:
         tz_exhaustive(ctx)
     else:
-        run_stream(ctx, [(case["ty"], case["value"], case.get("entry", "codec"))])
+        run_stream(ctx, [(case["ty"], case["value"], case.get("entry", "codec"))], annot=case.get("annot", False))
     return ctx.finish()
